@@ -23,9 +23,10 @@ class Unsupported(AnalysisError):
 
 
 class Raised(Exception):
-    def __init__(self, exc, args=None):
+    def __init__(self, exc, args=None, attrs=None):
         self.exc = exc
         self.args_ = args     # evaluated constructor arguments of the exception when they could be computed
+        self.attrs = attrs    # attributes of the exception object a stand-in declares (e.g. errno of an OSError)
 
 
 class _Return(Exception):
@@ -127,6 +128,8 @@ def _concrete(v, depth=0):
     """a plain Python value without abstract parts (node objects, opaque values, class / external markers may be *elements*
     of containers - the builtins above only rearrange them - but not the container itself)"""
     if v is None or isinstance(v, (int, float, str, bytes)):
+        return True
+    if isinstance(v, _pathlib.PurePath):
         return True
     if isinstance(v, (list, set)):
         return True
@@ -249,9 +252,10 @@ class EnumMember:
 class ExcValue(tuple):
     """an exception object built by the evaluated code: ('exc', class name), with the constructor arguments on the side"""
 
-    def __new__(cls, name, args=()):
+    def __new__(cls, name, args=(), attrs=None):
         o = tuple.__new__(cls, ('exc', name))
         o.args_ = tuple(args)
+        o.attrs = attrs
         return o
 
 
@@ -447,6 +451,9 @@ class FDE:
                 raise _Return(self._ev(s.value, env, fi) if s.value is not None else None)
             elif isinstance(s, ast.Raise):
                 name = 'Exception'
+                if s.exc is None and getattr(self, '_caught', None):
+                    c_ = self._caught[-1]
+                    raise Raised(c_.exc, c_.args_, c_.attrs)       # bare raise inside a handler: the exception being handled
                 if s.exc is not None:
                     e = s.exc.func if isinstance(s.exc, ast.Call) else s.exc
                     name = unparse(e).split('.')[-1]
@@ -488,8 +495,14 @@ class FDE:
                         if h is None:
                             raise
                         if h.name:
-                            env[h.name] = Opaque('caught ' + str(r.exc))
-                        self._run(h.body, env, fi)
+                            env[h.name] = ExcValue(str(r.exc), r.args_ or (), r.attrs) if r.attrs is not None else Opaque('caught ' + str(r.exc))
+                        if not hasattr(self, '_caught'):
+                            self._caught = []
+                        self._caught.append(r)
+                        try:
+                            self._run(h.body, env, fi)
+                        finally:
+                            self._caught.pop()
                     else:
                         self._run(s.orelse, env, fi)
                 except Yielded:
@@ -815,6 +828,12 @@ class FDE:
             return v_
         if isinstance(base, EnumMember) and attr in ('name', 'value'):
             return getattr(base, attr)
+        if isinstance(base, ExcValue) and base.attrs is not None:
+            if attr in base.attrs:
+                return base.attrs[attr]
+            if attr == 'args':
+                return tuple(base.args_)
+            raise Unsupported('attribute %s of a caught %s' % (attr, base[1]))
         if isinstance(base, tuple) and hasattr(type(base), '_fields'):
             if attr in type(base)._fields:
                 return getattr(base, attr)      # field of a record (namedtuple) built by the evaluated code
@@ -930,6 +949,9 @@ class FDE:
                 return ('unbound', fi.module.functions[e.id])       # a module-level function used as a value
             if e.id in _PURE_BUILTINS and (fi is None or (e.id not in fi.module.globals and e.id not in fi.module.imports)):
                 return _builtin_value(e.id)                          # enumerate / sorted / len ... handed over as a function
+            import builtins as _b
+            if isinstance(getattr(_b, e.id, None), type) and issubclass(getattr(_b, e.id), BaseException) and (fi is None or (e.id not in fi.module.globals and e.id not in fi.module.imports)):
+                return getattr(_b, e.id)        # a builtin exception class used as a value (type(e) is OSError)
             raise Unsupported('free name %s in %s' % (e.id, fi.qualname if fi else '?'))
         if isinstance(e, ast.Attribute):
             if unparse(e) in self.values:
@@ -1495,6 +1517,9 @@ class FDE:
             if n == 'isinstance':
                 o, c = args
                 cands = list(c) if isinstance(c, (tuple, list)) and c and isinstance(c[0], tuple) else [c]
+                if isinstance(o, _pathlib.PurePath) and cands and all(isinstance(x, tuple) and len(x) == 2 and x[0] == 'ext' and isinstance(x[1], type) for x in cands):
+                    # a pure path stands for a path object of this platform
+                    return any(issubclass(x[1], _pathlib.PurePath) and (isinstance(o, x[1]) or x[1] in (_pathlib.Path, _pathlib.PosixPath)) for x in cands)
                 if isinstance(o, TypedOpaque) and all(isinstance(x, tuple) and x and x[0] in ('ext', 'class') for x in cands):
                     return any((x[0] == 'ext' and issubclass(o.pytype, x[1])) or
                                (x[0] == 'class' and x[1] in ('list', 'dict', 'tuple', 'str', 'int') and issubclass(o.pytype, {'list': list, 'dict': dict, 'tuple': tuple, 'str': str, 'int': int}[x[1]]))
@@ -1525,6 +1550,10 @@ class FDE:
                 raise Unsupported('isinstance(%r, %r)' % (o, c))
             if n == 'type' and len(args) == 1 and isinstance(args[0], Obj):
                 return ('class', args[0].cls)
+            if n == 'type' and len(args) == 1 and isinstance(args[0], ExcValue) and args[0].attrs is not None:
+                import builtins as _b
+                c_ = getattr(_b, args[0][1], None)
+                return c_ if isinstance(c_, type) else ('class', args[0][1])
             if n == 'issubclass' and all(isinstance(a, tuple) and a and a[0] == 'class' for a in args):
                 return self.repo.is_subclass(args[0][1], args[1][1])
             if n == 'enumerate' and len(args) == 1 and isinstance(args[0], Obj):
@@ -1618,6 +1647,8 @@ class FDE:
                 if n == 'ConfigNode' and args and isinstance(args[0], Obj) and 'ConfigNodeMeta.__call__' in self.repo.functions:
                     return self._invoke(self.repo.functions['ConfigNodeMeta.__call__'], [('class', n)] + args, kwargs)
                 return Opaque('instance of ' + n)
+            if n in self.extcalls and n not in env:
+                return self._standin(self.extcalls[n], args, kwargs)       # a builtin the rule supplies a stand-in for (open, ...)
             raise Unsupported('call of %s (unresolved)' % n)
         if isinstance(f, ast.Attribute) and unparse(f) in self.extcalls:
             return self._standin(self.extcalls[unparse(f)], args, kwargs)
